@@ -84,11 +84,21 @@ def conf_cell(x):
     return [q.numerator, q.denominator]
 
 
+def disp_cell(v):
+    """a disparity as an exact rational, None for NaN; +-inf (never legitimate in a disparity map, but a step
+    that leaks its NaN -> inf substitution writes it) is kept as the string 'inf'/'-inf' so that the comparison
+    with the input map reports it instead of crashing the harness"""
+    v = float(v)
+    if math.isinf(v):
+        return "inf" if v > 0 else "-inf"
+    return core.to_q(v)
+
+
 def snapshot(ds):
     """everything the property talks about, canonical"""
     out = {
         "mask": ds["validity_mask"].data.astype(int).tolist(),
-        "disp": [[core.to_q(v) for v in row] for row in ds["disparity_map"].data],
+        "disp": [[disp_cell(v) for v in row] for row in ds["disparity_map"].data],
         "bands": [],
         "names": [],
     }
